@@ -149,21 +149,31 @@ fn handle_put<R: Read, W: Write>(
     let resp = with_commit_lock(lockdir, || {
         let current = current_hash(&dst);
         match cas_decide(current, expected) {
-            Cas::Commit => {
-                let _ = std::fs::rename(&tmp, &dst);
-                Response::PutResult {
+            // Acknowledge only what actually happened: a failed rename (e.g. the
+            // path is a directory) must not be reported as a commit / conflict-copy.
+            Cas::Commit => match std::fs::rename(&tmp, &dst) {
+                Ok(()) => Response::PutResult {
                     committed: true,
                     current: Some(hash),
+                },
+                Err(e) => {
+                    let _ = std::fs::remove_file(&tmp);
+                    Response::Error(format!("commit failed: {e}"))
                 }
-            }
+            },
             Cas::Conflict => {
                 // Never overwrite on a stale CAS — land a conflict-copy.
                 let mut cn = dst.as_os_str().to_owned();
                 cn.push(format!(".conflict-{}", super::wire::short_hash(&hash)));
-                let _ = std::fs::rename(&tmp, PathBuf::from(cn));
-                Response::PutResult {
-                    committed: false,
-                    current,
+                match std::fs::rename(&tmp, PathBuf::from(cn)) {
+                    Ok(()) => Response::PutResult {
+                        committed: false,
+                        current,
+                    },
+                    Err(e) => {
+                        let _ = std::fs::remove_file(&tmp);
+                        Response::Error(format!("conflict-copy failed: {e}"))
+                    }
                 }
             }
         }
@@ -185,10 +195,18 @@ fn handle_delete<W: Write>(
         let current = current_hash(&dst);
         match cas_decide(current, expected) {
             Cas::Commit => {
-                let _ = std::fs::remove_file(&dst);
-                Response::DeleteResult {
-                    deleted: true,
-                    current: None,
+                // Nothing to remove when the path is already absent (expected == None).
+                let removed = if current.is_some() {
+                    std::fs::remove_file(&dst)
+                } else {
+                    Ok(())
+                };
+                match removed {
+                    Ok(()) => Response::DeleteResult {
+                        deleted: true,
+                        current: None,
+                    },
+                    Err(e) => Response::Error(format!("delete failed: {e}")),
                 }
             }
             Cas::Conflict => Response::DeleteResult {
